@@ -1,6 +1,6 @@
 (* C19 — exported connection and subscription gauges equal reality. *)
 From Coq Require Import ZArith List Bool.
-From HP Require Import Bytes Sha1 Wire Broker BrokerSpec BrokerInv BrokerStep BrokerMetrics.
+From HP Require Import Bytes Sha1 Wire Broker BrokerSpec BrokerInv BrokerStep BrokerMetrics BrokerGauge.
 Import ListNotations.
 Open Scope Z_scope.
 
@@ -21,7 +21,23 @@ Proof. exact (run_M bname store async_store). Qed.
 Theorem C19_all_gone_zero : forall h, (forall q, copen (conns (run h) q) = false) ->
   g_conn (run h) = 0 /\ forall c, gsum c (g_subs (run h)) = 0.
 Proof. exact (all_gone_zero bname store async_store). Qed.
+(* per identity, for EVERY history (also when a connection authenticates again under another identity: authenticate()
+   moves its counts): the gauge of every (ident, channel) label = the number of connections currently subscribed to
+   the channel whose current identity is ident (p_val); a connection without an identity holds no subscription (p_na) *)
+Theorem C19_per_identity : forall h, PI (run h).
+Proof. exact (run_PI bname store async_store). Qed.
+
+Theorem C19_never_negative : forall h i c, 0 <= gval (i, c) (g_subs (run h)).
+Proof. exact (gauges_nonneg bname store async_store). Qed.
+
+(* once every client has gone EVERY gauge is zero (not only the per-channel sums) *)
+Theorem C19_all_gone_every_gauge_zero : forall h, (forall q, copen (conns (run h) q) = false) ->
+  forall i c, gval (i, c) (g_subs (run h)) = 0.
+Proof. exact (all_gone_every_gauge_zero bname store async_store). Qed.
 End C19.
 
 Print Assumptions C19_gauges.
 Print Assumptions C19_all_gone_zero.
+Print Assumptions C19_per_identity.
+Print Assumptions C19_never_negative.
+Print Assumptions C19_all_gone_every_gauge_zero.
